@@ -1085,6 +1085,10 @@ def install(lib):
     iom = lib.modules.setdefault('io', {})
 
     def _stringio(it, a, k, n):
+        if not a:
+            o = it.ctx.new_object('_TextSink')
+            it.ctx.write_field(o.t, '_written', VStr(''))
+            return o
         content = it.ctx.force(a[0]) if a else VStr('')
         from .values import _other
         o = VOpaque(_other('stringio', content.t), 'other')
